@@ -7,6 +7,8 @@ leftover of a FAILED import (never while the module is loaded or loading), a fin
 every completed import of a path yields the same object, a module whose body is on the frame stack is a cycle
 ImportError, load/compile failures are ImportErrors that register nothing, a failed import is retried from
 scratch, the active module is the module of the running closure, built-ins are in every started module.
+Refinement (ModRefine.v): for EVERY program of the mini-language, module map and fuel the Mechanism evaluator shows
+what the Spec evaluator shows (C14_mech_refines_spec) - so impl == M on a case implies impl == S on it.
 Tie: (a) translator: stage order / literals / load_frame sites of vm.rs + compiler.rs regenerated into
 YVGen.ImportArms and compared by computation; (b) impl == M: harness `mods` (host loader serving a module
 map, LOAD records) on generated module programs, loader-call sequence + output + outcome against
